@@ -99,7 +99,9 @@ type SortF struct {
 }
 
 type Query struct {
-	Pred      Expr // nil: no predicate
+	Pred Expr // nil: no predicate
+	// Flat renders the predicate with the fewest parentheses the precedence rules (not > and > or) allow
+	Flat      bool
 	Sort      []SortF
 	Skip      *int64
 	Limit     *int64
@@ -108,28 +110,62 @@ type Query struct {
 
 func paren(e Expr) ql.Stream { return ql.Paren(e.Stream()) }
 
+// FlatStream renders e relying on precedence: an or under an and keeps its parentheses, chains of the same
+// connective and an and under an or are written without. A not and a between (which has an "and" of its own) stay
+// wrapped.
+func FlatStream(e Expr) ql.Stream {
+	operand := func(x Expr, underAnd bool) ql.Stream {
+		switch v := x.(type) {
+		case And:
+			return FlatStream(v)
+		case Or:
+			if underAnd {
+				return ql.Paren(FlatStream(v))
+			}
+			return FlatStream(v)
+		case Not:
+			return ql.Paren(ql.Not(FlatStream(v.E)))
+		case Cmp:
+			if strings.Contains(v.Op, "between") {
+				return paren(v)
+			}
+			return v.Stream()
+		}
+		return paren(x)
+	}
+	switch v := e.(type) {
+	case And:
+		return ql.And(operand(v.L, true), operand(v.R, true))
+	case Or:
+		return ql.Or(operand(v.L, false), operand(v.R, false))
+	case Not:
+		return ql.Not(FlatStream(v.E))
+	}
+	return e.Stream()
+}
+
 // fully parenthesised rendering: precedence belongs to C12
 func (e And) Stream() ql.Stream     { return ql.And(paren(e.L), paren(e.R)) }
 func (e Or) Stream() ql.Stream      { return ql.Or(paren(e.L), paren(e.R)) }
 func (e Not) Stream() ql.Stream     { return ql.Not(e.E.Stream()) }
 func (e Const) Stream() ql.Stream   { return ql.Stream{ql.K(strconv.FormatBool(e.V))} }
-func (e BoolSym) Stream() ql.Stream { return ql.Stream{ql.T(e.Name)} }
+func (e BoolSym) Stream() ql.Stream { return ql.Stream{ql.I(e.Name)} }
 
 func (l LHS) Stream() ql.Stream {
 	switch l.Kind {
 	case "sym":
-		return ql.Stream{ql.T(l.Sym)}
+		return ql.Stream{ql.I(l.Sym)}
 	case "count":
 		if l.Sub != nil {
 			return ql.Func("count", l.Sub.Stream())
 		}
-		return ql.Func("count", ql.Stream{ql.T(l.Sym)})
+		return ql.Func("count", ql.Stream{ql.I(l.Sym)})
 	}
-	return ql.Func(l.Kind, ql.Stream{ql.T(l.Sym)})
+	return ql.Func(l.Kind, ql.Stream{ql.I(l.Sym)})
 }
 
 func (s *SubQ) Stream() ql.Stream {
-	return ql.Cat(ql.Stream{ql.K("from"), ql.G(ql.Req), ql.T(s.Set), ql.G(ql.Req), ql.K("where"), ql.G(ql.Req)}, s.Q.Stream())
+	return ql.Cat(ql.Stream{ql.K("from"), ql.G(ql.Req), ql.I(s.Set), ql.G(ql.Req), ql.K("where"), ql.G(ql.Req)}, s.Q.Stream())
 }
 
 func (c Cmp) Stream() ql.Stream {
@@ -152,13 +188,17 @@ func (e IsEmpty) Stream() ql.Stream {
 	if e.Sub != nil {
 		return ql.Func("isEmpty", e.Sub.Stream())
 	}
-	return ql.Func("isEmpty", ql.Stream{ql.T(e.Sym)})
+	return ql.Func("isEmpty", ql.Stream{ql.I(e.Sym)})
 }
 
 func (q *Query) Stream() ql.Stream {
 	var out ql.Stream
 	if q.Pred != nil {
-		out = q.Pred.Stream()
+		if q.Flat {
+			out = FlatStream(q.Pred)
+		} else {
+			out = q.Pred.Stream()
+		}
 	}
 	sep := func() {
 		if len(out) > 0 {
@@ -172,7 +212,7 @@ func (q *Query) Stream() ql.Stream {
 			if i > 0 {
 				out = append(out, ql.G(ql.Opt), ql.T(","), ql.G(ql.Opt))
 			}
-			out = append(out, ql.T(f.Sym))
+			out = append(out, ql.I(f.Sym))
 			if f.Dir != "" {
 				out = append(out, ql.G(ql.Req), ql.K(f.Dir))
 			}
